@@ -626,3 +626,195 @@ Qed.
 
 Lemma is_orf_text_witness : is_orf_text (bs "CCATGAAATAAC"%bs) 2 2 11.
 Proof. apply is_orf_text_iff; [reflexivity|]. apply is_orf_spec. vm_compute. left. reflexivity. Qed.
+
+(* ---- every rf form, every mode: the invariants also hold with repeated frames ------------------------------------------------ *)
+Definition left_ok (starts stops : list Z) (r : res3) : Prop := incl (fst (snd r)) starts /\ incl (snd (snd r)) stops.
+
+Lemma choose_i1_incl ns fs starts i2 : incl (snd (choose_i1 ns fs starts i2)) starts.
+Proof.
+  unfold choose_i1, pop_start. destruct ns, i2, starts; cbn [snd]; try apply incl_refl; try (apply incl_tl; apply incl_refl).
+Qed.
+
+Lemma loop_body_st_left (rec : list Z -> list Z -> option Z -> res3) need_stop minlen L frame i1 starts' stops i2 :
+  (forall a b c, left_ok a b (rec a b c)) ->
+  left_ok starts' stops (loop_body_st rec need_stop minlen L frame i1 starts' stops i2).
+Proof.
+  intros H. unfold loop_body_st.
+  destruct (match i2 with Some p => i1 <? p | None => false end); [apply H|].
+  destruct (next_stop i1 stops) as [[e r]|] eqn:N.
+  - apply next_stop_some in N. destruct N as (_ & _ & _ & Hr).
+    destruct (inds2orf i1 e frame L); [|split; cbn [fst snd]; [apply incl_refl|exact Hr]].
+    unfold cons_res3, left_ok. cbn [snd]. destruct (e =? L).
+    + split; cbn [fst snd]; [apply incl_refl|exact Hr].
+    + destruct (H starts' r (Some e)) as [A B]. split; [exact A|]. intros x Hx. apply Hr. apply B. exact Hx.
+  - destruct need_stop; [split; cbn [fst snd]; [apply incl_refl|intros x []]|].
+    destruct (inds2orf i1 L frame L); [|split; cbn [fst snd]; [apply incl_refl|intros x []]].
+    unfold cons_res3, left_ok. cbn [snd]. destruct (L =? L).
+    + split; cbn [fst snd]; [apply incl_refl|intros x []].
+    + destruct (H starts' [] (Some L)) as [A B]. split; [exact A|]. intros x Hx. destruct (B x Hx).
+Qed.
+
+Lemma frame_loop_st_left : forall fuel ns need_stop minlen L frame fs last starts stops i2,
+  left_ok starts stops (frame_loop_st fuel ns need_stop minlen L frame fs last starts stops i2).
+Proof.
+  induction fuel as [|fuel IH]; intros; cbn [frame_loop_st]; [split; apply incl_refl|].
+  destruct (negb (loop_cond ns starts i2)); [split; apply incl_refl|].
+  destruct (fst (choose_i1 ns fs starts i2) >=? last); [split; cbn [fst snd]; [apply choose_i1_incl|apply incl_refl]|].
+  destruct (loop_body_st_left (frame_loop_st fuel ns need_stop minlen L frame fs last) need_stop minlen L frame
+              (fst (choose_i1 ns fs starts i2)) (snd (choose_i1 ns fs starts i2)) stops i2) as [A B]; [intros a b c; apply IH|].
+  split; [|exact B]. intros x Hx. apply (choose_i1_incl ns fs starts i2). apply A. exact Hx.
+Qed.
+
+Definition st_ok (L : Z) (st : list (Z * (list Z * list Z))) : Prop :=
+  forall k v, In (k, v) st -> Forall (start_in L) (fst v) /\ Forall (stop_in L) (snd v).
+
+Lemma lookup_st_in f : forall st v, lookup_st f st = Some v -> In (f, v) st.
+Proof.
+  induction st as [|[k w] st IH]; intros v H; [discriminate|]. cbn [lookup_st] in H. destruct (k =? f) eqn:E.
+  - inversion H; subst. left. f_equal. lia.
+  - right. apply IH. exact H.
+Qed.
+
+Theorem orfs_frames_st_good g sw pw ns need_stop minlen s :
+  gap_safe g = true -> words_ok g sw = true -> words_ok g pw = true ->
+  forall frames st, st_ok (Z.of_nat (length s)) st ->
+  exists l, orfs_frames_st g sw pw ns need_stop minlen s st frames = ROk l /\
+            Forall (orf_inv (Z.of_nat (length s)) minlen frames) l.
+Proof.
+  intros S W1 W2.
+  induction frames as [|f r IH]; intros st Hst; cbn [orfs_frames_st]; [exists []; split; [reflexivity|constructor]|].
+  set (ls := match lookup_st f st with Some p => p | None => (starts_x g sw s f, stops_x g pw s f) end).
+  assert (Hls : Forall (start_in (Z.of_nat (length s))) (fst ls) /\ Forall (stop_in (Z.of_nat (length s))) (snd ls)).
+  { unfold ls. destruct (lookup_st f st) as [v|] eqn:E.
+    - apply lookup_st_in in E. apply (Hst f v E).
+    - destruct (custom_codon_lists g sw pw s f S W1 W2) as (_ & _ & B1 & B2). cbn [fst snd]. split; assumption. }
+  destruct Hls as [B1 B2].
+  assert (HL : Z.of_nat (last_res_g g (strand_data s f)) <= Z.of_nat (length s)).
+  { rewrite last_res_transfer. pose proof (last_res_le (to_dash g (strand_data s f))) as H. rewrite to_dash_length in H.
+    assert (E : length (strand_data s f) = length s) by (unfold strand_data; destruct (f >=? 0); [reflexivity|apply rev_length]). lia. }
+  pose proof (frame_loop_good (length (fst ls) + length (snd ls) + 1) ns need_stop minlen (Z.of_nat (length s)) f
+                (Z.of_nat (frame_start_g g (strand_data s f) f)) (Z.of_nat (last_res_g g (strand_data s f))) (fst ls) (snd ls) None
+                B1 B2) as G.
+  destruct G as [l1 [E1 F1]]; [intros p E; discriminate|lia|exact HL|lia|].
+  pose proof (frame_loop_st_left (length (fst ls) + length (snd ls) + 1) ns need_stop minlen (Z.of_nat (length s)) f
+                (Z.of_nat (frame_start_g g (strand_data s f) f)) (Z.of_nat (last_res_g g (strand_data s f))) (fst ls) (snd ls) None) as [I1 I2].
+  unfold frame_pass_st. fold ls. rewrite frame_loop_st_fst, E1.
+  destruct (IH ((f, snd (frame_loop_st (length (fst ls) + length (snd ls) + 1) ns need_stop minlen (Z.of_nat (length s)) f
+                (Z.of_nat (frame_start_g g (strand_data s f) f)) (Z.of_nat (last_res_g g (strand_data s f))) (fst ls) (snd ls) None)) :: st))
+    as [l2 [E2 F2]].
+  { intros k v [Hin|Hin]; [|apply (Hst k v Hin)]. inversion Hin; subst. split.
+    - rewrite Forall_forall in *. intros x Hx. apply B1. apply I1. exact Hx.
+    - rewrite Forall_forall in *. intros x Hx. apply B2. apply I2. exact Hx. }
+  rewrite E2. cbn [app_res]. exists (l1 ++ l2). split; [reflexivity|]. apply Forall_app. split.
+  - eapply Forall_impl; [|exact F1]. intros o (O1 & O2 & O3 & O4 & O5 & O6). unfold orf_inv. rewrite O5. repeat split; auto. left; reflexivity.
+  - eapply Forall_impl; [|exact F2]. intros o (O1 & O2 & O3 & O4 & O5 & O6). unfold orf_inv. repeat split; auto. right; exact O5.
+Qed.
+
+(* every rf form: an error of the documented class, or a list satisfying the invariants *)
+Theorem any_rf_invariants gap start stop rf ns need_stop minlen s :
+  gap_safe (gap_set gap) = true -> words_ok (gap_set gap) (pat_words start) = true -> words_ok (gap_set gap) (pat_words stop) = true ->
+  match rf with
+  | RAspec r => exists l, find_orfs_any gap start stop rf ns need_stop minlen s = XOk l /\
+      Forall (fun o => 0 <= o_start o /\ o_start o < o_stop o /\ o_stop o <= Z.of_nat (length s) /\
+                       minlen <= o_stop o - o_start o /\ In (o_rf o) (frames_of r) /\ o_plus o = (o_rf o >=? 0)) l
+  | RAbadstr => find_orfs_any gap start stop rf ns need_stop minlen s = XErr (bs "AssertionError"%bs)
+  | _ => find_orfs_any gap start stop rf ns need_stop minlen s = XErr (bs "TypeError"%bs)
+  end.
+Proof.
+  intros S W1 W2. destruct rf as [r| | | |]; try reflexivity.
+  destruct (orfs_frames_st_good (gap_set gap) (pat_words start) (pat_words stop) ns need_stop minlen s S W1 W2 (frames_of r) [])
+    as [l [E F]]; [intros k v []|].
+  exists l. unfold find_orfs_any. rewrite E. split; [reflexivity|exact F].
+Qed.
+
+(* ---- default settings: a repeated frame contributes nothing the second time ---------------------------------------------------- *)
+Definition dead (v : list Z * list Z) : Prop := fst v = [] \/ snd v = [].
+
+Lemma default_pass_dead : forall fuel minlen L frame fs last starts stops i2,
+  zsorted stops -> Forall (stop_in L) stops -> Forall (start_in L) starts -> Forall (fun a => a < last) starts ->
+  (length starts + length stops < fuel)%nat ->
+  dead (snd (frame_loop_st fuel NSAlways true minlen L frame fs last starts stops i2)).
+Proof.
+  induction fuel as [|fuel IH]; intros minlen L frame fs last starts stops i2 Ss Bs Ba Bl Hf; [lia|].
+  cbn [frame_loop_st loop_cond]. destruct starts as [|a ss]; [left; reflexivity|].
+  cbn [is_nil negb choose_i1 pop_start fst snd].
+  inversion Ba as [|? ? Ba1 Ba2]; subst. inversion Bl as [|? ? Bl1 Bl2]; subst. unfold start_in in Ba1.
+  destruct (a >=? last) eqn:Hbr; [lia|].
+  cbn [length] in Hf. unfold loop_body_st.
+  destruct (match i2 with Some p => a <? p | None => false end).
+  { apply IH; auto. lia. }
+  destruct (next_stop a stops) as [[e r]|] eqn:N.
+  - pose proof (next_stop_sorted _ _ _ _ Ss N) as [Sr Fr]. apply next_stop_some in N. destruct N as (N1 & N2 & N3 & N4).
+    assert (Br : Forall (stop_in L) r) by (rewrite Forall_forall in *; intros x Hx; apply Bs; apply N4; exact Hx).
+    assert (Be : e <= L) by (rewrite Forall_forall in Bs; specialize (Bs e N2); unfold stop_in in Bs; lia).
+    destruct (inds2orf_some a e frame L) as [o [Eo _]]; try lia. rewrite Eo. unfold cons_res3. cbn [snd].
+    destruct (e =? L) eqn:EL.
+    + right. cbn [snd]. destruct r as [|x r']; [reflexivity|]. inversion Fr; subst. inversion Br; subst. unfold stop_in in *. lia.
+    + apply IH; auto. lia.
+  - right. reflexivity.
+Qed.
+
+Lemma dead_pass_nothing fuel minlen L frame fs last v :
+  dead v -> exists v', frame_loop_st (S fuel) NSAlways true minlen L frame fs last (fst v) (snd v) None = (ROk [], v') /\ dead v'.
+Proof.
+  destruct v as [starts stops]. unfold dead. cbn [fst snd]. intros [E|E]; subst.
+  - exists ([], stops). split; [reflexivity|left; reflexivity].
+  - destruct starts as [|a ss]; [exists ([], []); split; [reflexivity|left; reflexivity]|].
+    cbn [frame_loop_st loop_cond is_nil negb choose_i1 pop_start fst snd].
+    destruct (a >=? last); [exists (ss, []); split; [reflexivity|right; reflexivity]|].
+    unfold loop_body_st. cbn [next_stop]. exists (ss, []). split; [reflexivity|right; reflexivity].
+Qed.
+
+Fixpoint dedup_from (seen frames : list Z) : list Z :=
+  match frames with
+  | [] => []
+  | f :: r => if existsb (Z.eqb f) seen then dedup_from seen r else f :: dedup_from (f :: seen) r
+  end.
+
+Lemma app_res_nil b : app_res (ROk []) b = b.
+Proof. destruct b; reflexivity. Qed.
+
+Lemma starts_x_before_last g sw s f : gap_safe g = true -> words_ok g sw = true ->
+  Forall (fun a => a < Z.of_nat (last_res_g g (strand_data s f))) (starts_x g sw s f).
+Proof.
+  intros S W. destruct (words_ok_facts g sw W) as [NE C]. rewrite starts_x_transfer by assumption.
+  rewrite last_res_transfer, <- strand_data_to_dash. apply starts_w_before_last; [exact NE|eapply clean_letters_ok; eauto].
+Qed.
+
+Theorem default_repeats_nothing g sw pw minlen s : gap_safe g = true -> words_ok g sw = true -> words_ok g pw = true ->
+  forall frames st seen,
+  (forall f, lookup_st f st = None <-> existsb (Z.eqb f) seen = false) ->
+  (forall k v, In (k, v) st -> dead v) ->
+  orfs_frames_st g sw pw NSAlways true minlen s st frames = orfs_frames_x g sw pw NSAlways true minlen s (dedup_from seen frames).
+Proof.
+  intros S W1 W2. induction frames as [|f r IH]; intros st seen Hk Hd; [reflexivity|].
+  cbn [orfs_frames_st dedup_from]. unfold frame_pass_st. destruct (existsb (Z.eqb f) seen) eqn:Ef.
+  - destruct (lookup_st f st) as [v|] eqn:El; [|apply Hk in El; congruence].
+    pose proof (Hd f v (lookup_st_in f st v El)) as Dv.
+    replace (length (fst v) + length (snd v) + 1)%nat with (Datatypes.S (length (fst v) + length (snd v))%nat) by lia.
+    destruct (dead_pass_nothing (length (fst v) + length (snd v))%nat minlen (Z.of_nat (length s)) f
+                (Z.of_nat (frame_start_g g (strand_data s f) f)) (Z.of_nat (last_res_g g (strand_data s f))) v Dv) as [v' [E Dv']].
+    rewrite E. cbn [fst snd]. rewrite app_res_nil. apply IH.
+    + intros f'. cbn [lookup_st]. destruct (f =? f') eqn:E'; [|apply Hk].
+      assert (f' = f) by lia. subst f'. split; [discriminate|congruence].
+    + intros k w [Hin|Hin]; [inversion Hin; subst; exact Dv'|apply (Hd k w Hin)].
+  - destruct (lookup_st f st) as [v|] eqn:El; [assert (K : lookup_st f st = None) by (apply Hk; exact Ef); congruence|].
+    cbn [fst snd orfs_frames_x]. rewrite frame_loop_st_fst. fold (frame_orfs_x g sw pw NSAlways true minlen s f). f_equal.
+    destruct (custom_codon_lists g sw pw s f S W1 W2) as (S1 & S2 & B1 & B2).
+    apply IH.
+    + intros f'. cbn [lookup_st existsb]. destruct (f =? f') eqn:E'.
+      * assert (E'' : (f' =? f) = true) by lia. rewrite E''. cbn [orb]. split; discriminate.
+      * assert (E'' : (f' =? f) = false) by lia. rewrite E''. cbn [orb]. apply Hk.
+    + intros k w [Hin|Hin]; [|apply (Hd k w Hin)]. inversion Hin; subst.
+      apply default_pass_dead; auto.
+      * apply starts_x_before_last; assumption.
+      * lia.
+Qed.
+
+Theorem default_any_frames g sw pw minlen s frames : gap_safe g = true -> words_ok g sw = true -> words_ok g pw = true ->
+  orfs_frames_st g sw pw NSAlways true minlen s [] frames = orfs_frames_x g sw pw NSAlways true minlen s (dedup_from [] frames).
+Proof.
+  intros S W1 W2. apply default_repeats_nothing; auto.
+  - intros f. split; reflexivity.
+  - intros k v [].
+Qed.
